@@ -1006,9 +1006,142 @@ def gen_timer_prog():
     return '\n'.join(out) + '\n'
 
 
+# ----------------------------------------------------------------------------- the flow of the command line through kernprof.main / _main (C15)
+ARGFLOW_NAMES = {'args', 'module', 'post_args', 'options'}
+ARGFLOW_ATTRS = {('options', 'args'), ('options', 'script'), ('options', 'outfile'), ('sys', 'argv')}
+ARGFLOW_MUTATORS = {'append', 'extend', 'insert', 'pop', 'remove', 'clear', 'sort', 'reverse', '__setitem__', '__delitem__', '__iadd__'}
+ARGFLOW_FORMS = {
+    'if args is None: args = sys.argv[1:]': 'defaultArgs',
+    "args, module, post_args = pre_parse_single_arg_directive(args, '-m')": 'preParse',
+    'options = real_parser.parse_args(args)': 'parseArgs',
+    'options.args += post_args': 'appendPost',
+    'if module is not None: options.script = module': 'scriptFromModule',
+    "if not options.outfile: extension = 'lprof' if options.line_by_line else 'prof' options.outfile = '%s.%s' % (os.path.basename(options.script), extension)": 'defaultOutfile',
+    'sys.argv = [options.script] + options.args': 'setArgv',
+}
+
+
+def _is_tracked(node):
+    if isinstance(node, ast.Name):
+        return node.id in ARGFLOW_NAMES
+    if isinstance(node, ast.Attribute) and isinstance(node.value, ast.Name):
+        return (node.value.id, node.attr) in ARGFLOW_ATTRS
+    if isinstance(node, (ast.Subscript, ast.Starred)):
+        return _is_tracked(node.value)
+    if isinstance(node, (ast.Tuple, ast.List)):
+        return any(_is_tracked(e) for e in node.elts)
+    return False
+
+
+def _writes_tracked(stmt):
+    """does the statement (anywhere inside it, nested function bodies excluded) bind, rebind, delete or mutate a tracked name?"""
+    todo = [stmt]
+    while todo:
+        n = todo.pop()
+        if isinstance(n, (ast.FunctionDef, ast.AsyncFunctionDef, ast.Lambda, ast.ClassDef)) and n is not stmt:
+            continue
+        if isinstance(n, ast.Assign) and any(_is_tracked(t) for t in n.targets):
+            return True
+        if isinstance(n, (ast.AugAssign, ast.AnnAssign)) and _is_tracked(n.target):
+            return True
+        if isinstance(n, ast.Delete) and any(_is_tracked(t) for t in n.targets):
+            return True
+        if isinstance(n, ast.NamedExpr) and _is_tracked(n.target):
+            return True
+        if isinstance(n, (ast.For, ast.AsyncFor)) and _is_tracked(n.target):
+            return True
+        if isinstance(n, (ast.With, ast.AsyncWith)) and any(i.optional_vars is not None and _is_tracked(i.optional_vars) for i in n.items):
+            return True
+        if isinstance(n, ast.Call) and isinstance(n.func, ast.Attribute) and n.func.attr in ARGFLOW_MUTATORS and _is_tracked(n.func.value):
+            return True
+        if isinstance(n, ast.Call) and ast.unparse(n.func) == 'setattr' and n.args and _is_tracked(n.args[0]):
+            return True
+        todo.extend(ast.iter_child_nodes(n))
+    return False
+
+
+def _norm(stmt):
+    return ' '.join(ast.unparse(stmt).split())
+
+
+def _parser_positionals_ok(fn):
+    """the `script` positional exists exactly when `module is None` (or on the help parser), and `args` takes the remainder"""
+    text = _norm(fn)
+    a = "if parser is help_parser or module is None: parser.add_argument('script'," in text
+    b = "parser.add_argument('args', nargs='...'," in text
+    c = text.count("add_argument('script'") == 1 and text.count("add_argument('args'") == 1
+    d = ('if module is None: real_parser, = parsers = [create_parser()] help_parser = None else: real_parser = create_parser(add_help=False)' in text
+         and 'help_parser = create_parser() parsers = [real_parser, help_parser] for parser in parsers:' in text)
+    return a and b and c and d
+
+
+def arg_flow():
+    kp = ast.parse(src_of('kernprof.py'))
+    main_fn, body_fn = find_func(kp, 'main'), find_func(kp, '_main') or find_func(kp, 'main')
+    out = []
+
+    def walk(stmts, in_main):
+        """-> True when the walk is over (after `sys.argv = …`)"""
+        for st in stmts:
+            text = _norm(st)
+            if in_main and '_main(' in text and not _writes_tracked(st) and isinstance(st, ast.Expr):
+                out.append(('callMain', st.lineno))
+                continue
+            if isinstance(st, (ast.FunctionDef, ast.AsyncFunctionDef, ast.ClassDef)):
+                continue
+            if text in ARGFLOW_FORMS:
+                name = ARGFLOW_FORMS[text]
+                if name == 'parseArgs' and not _parser_positionals_ok(body_fn):
+                    name = 'unknown'
+                out.append((name, st.lineno))
+                continue
+            if not _writes_tracked(st) and not (in_main and '_main(' in text):
+                continue
+            # a compound statement that only wraps known forms (`with …:`, `try:`): look inside; anything else has no known meaning
+            if isinstance(st, (ast.With, ast.AsyncWith)) and not any(i.optional_vars is not None and _is_tracked(i.optional_vars) for i in st.items):
+                walk(st.body, in_main)
+            elif isinstance(st, ast.Try):
+                walk(st.body, in_main)
+                for h in st.handlers:
+                    walk(h.body, in_main)
+                walk(st.orelse, in_main)
+                walk(st.finalbody, in_main)
+            else:
+                out.append(('unknown', st.lineno))
+
+    if body_fn is not main_fn:
+        walk(main_fn.body, True)
+    walk(body_fn.body, False)
+    # `sys.argv, sys.path = argv, path` in main's `finally:` restores the caller's list after the run: not part of the flow to the program
+    flow = []
+    for name, line in out:
+        flow.append((name, line))
+    return flow
+
+
+def gen_arg_flow():
+    flow = arg_flow()
+    # the restoration in `main` (`sys.argv, sys.path = (argv, path)`) comes after `_main` returned: it is C19's subject; drop that one statement
+    kp_lines = src_of('kernprof.py').split('\n')
+    kept = []
+    for name, line in flow:
+        if name == 'unknown' and ' '.join(kp_lines[line - 1].split()) == 'sys.argv, sys.path = argv, path':
+            continue
+        kept.append((name, line))
+    out = ['import LPVerif.Model.ArgFlow', '/-! The statements of `kernprof.main` / `kernprof._main` that write the command line\'s names, in source order — emitted by',
+           '    tools/extract.py from the tree, regenerated on every run. -/', 'namespace LPVerif.Generated', 'open LPVerif.ArgFlow', '']
+    out.append('def kernprofArgFlow : List Stmt := [%s]' % ', '.join('.' + n for n, _ in kept))
+    out.append('')
+    out.append('/-- source lines of the statements (for the reader) -/')
+    out.append('def kernprofArgFlowLines : List Nat := [%s]' % ', '.join(str(l) for _, l in kept))
+    out.append('')
+    out.append('end LPVerif.Generated')
+    return '\n'.join(out) + '\n'
+
+
 GENERATORS = [('PreParse.lean', gen_pre_parse), ('RelImport.lean', gen_get_module),
               ('KernprofOptions.lean', gen_kernprof_options), ('ExplicitTables.lean', gen_explicit_tables),
-              ('Explicit.lean', gen_explicit_methods), ('WrapTables.lean', gen_wrap_tables), ('Skeletons.lean', gen_skeletons), ('ReportTables.lean', gen_report_tables), ('ChannelTables.lean', gen_channel_tables), ('TimerProg.lean', gen_timer_prog)]
+              ('Explicit.lean', gen_explicit_methods), ('WrapTables.lean', gen_wrap_tables), ('Skeletons.lean', gen_skeletons), ('ReportTables.lean', gen_report_tables), ('ChannelTables.lean', gen_channel_tables), ('TimerProg.lean', gen_timer_prog), ('ArgFlow.lean', gen_arg_flow)]
 
 
 def regenerate(log=None):
